@@ -99,11 +99,11 @@ def r15b(chk, rid='R15.b'):
     ok, _ = g.all_paths_pass([ENTRY], lambda n: n is test[0], targets=[dele[0].id])
     chk.ob(rid, SHEET, 'CSSStyleSheet.deleteRule', 'the namespace test dominates the deletion', ok, 'a path deletes without asking whether the namespace is in use')
     body = ast.unparse(test[0].stmt)
-    chk.ob(rid, SHEET, 'CSSStyleSheet.deleteRule', 'refuses the last rule of a URI in use', 'rule.namespaceURI in useduris' in body and 'uris.count(rule.namespaceURI) == 1' in body and 'raise xml.dom.NoModificationAllowedErr' in body, body[:160])
-    chk.ob(rid, SHEET, 'CSSStyleSheet.deleteRule', 'used URIs come from _getUsedURIs', 'useduris = self._getUsedURIs()' in body, '')
+    chk.ob(rid, SHEET, 'CSSStyleSheet.deleteRule', 'refuses the last rule of a URI in use', 'rule.namespaceURI in useduris' in body and 'uris.count(rule.namespaceURI) == 1' in body and 'raise xml.dom.NoModificationAllowedErr' in body, body[:160], shape=True)
+    chk.ob(rid, SHEET, 'CSSStyleSheet.deleteRule', 'used URIs come from _getUsedURIs', 'useduris = self._getUsedURIs()' in body, '', shape=True)
     uf = chk.repo.fn(SHEET, 'CSSStyleSheet._getUsedURIs')
     src = ast.unparse(uf)
-    chk.ob(rid, SHEET, 'CSSStyleSheet._getUsedURIs', 'scans style rules at sheet level and inside @media', 'r1.STYLE_RULE == r1.type' in src and 'r1.MEDIA_RULE == r1.type' in src and src.count('_getUsedUris()') == 2, src[:200])
+    chk.ob(rid, SHEET, 'CSSStyleSheet._getUsedURIs', 'scans style rules at sheet level and inside @media', 'r1.STYLE_RULE == r1.type' in src and 'r1.MEDIA_RULE == r1.type' in src and src.count('_getUsedUris()') == 2, src[:200], shape=True)
 
 
 def r15c(chk, rid='R15.c'):
@@ -158,11 +158,11 @@ def r15d(chk, rid='R15.d'):
         chk.ob(rid, UTIL, f'_Namespaces.{name}', 'keeps no state of its own', not w, f'writes {w}: a cached mapping can disagree with the rules')
     g = ci.getters.get('namespaces')
     src = ast.unparse(g) if g is not None else ''
-    chk.ob(rid, UTIL, '_Namespaces.namespaces', 'computed from the reversed rule list, one entry per URI', 'reversed(self.parentStyleSheet.cssRules)' in src and 'unique_everseen' in src and "attrgetter('namespaceURI')" in src, src[:200])
+    chk.ob(rid, UTIL, '_Namespaces.namespaces', 'computed from the reversed rule list, one entry per URI', 'reversed(self.parentStyleSheet.cssRules)' in src and 'unique_everseen' in src and "attrgetter('namespaceURI')" in src, src[:200], shape=True)
     src = ast.unparse(ci.methods['__setitem__'])
-    chk.ob(rid, UTIL, '_Namespaces.__setitem__', 'declares through insertRule(..., inOrder=True) or the rule setters', 'self.parentStyleSheet.insertRule(' in src and 'inOrder=True' in src and 'rule.namespaceURI = namespaceURI' in src, '')
+    chk.ob(rid, UTIL, '_Namespaces.__setitem__', 'declares through insertRule(..., inOrder=True) or the rule setters', 'self.parentStyleSheet.insertRule(' in src and 'inOrder=True' in src and 'rule.namespaceURI = namespaceURI' in src, '', shape=True)
     src = ast.unparse(ci.methods['__delitem__'])
-    chk.ob(rid, UTIL, '_Namespaces.__delitem__', 'deletes through deleteRule (which keeps the in-use guard)', 'self.parentStyleSheet.deleteRule(' in src, '')
+    chk.ob(rid, UTIL, '_Namespaces.__delitem__', 'deletes through deleteRule (which keeps the in-use guard)', 'self.parentStyleSheet.deleteRule(' in src, '', shape=True)
 
 
 def r15g(chk, rid='R15.g'):
@@ -205,4 +205,4 @@ def r15g(chk, rid='R15.g'):
         chk.ob(rid, NSRULE, 'CSSNamespaceRule._setPrefix', f'path writing {sorted(s) or "nothing"}', ok,
                'the prefix reported by the rule (and used by the namespace mapping and by selectors) changes while the serialised rule keeps the old one')
     init = ast.unparse(chk.repo.fn(NSRULE, 'CSSNamespaceRule.__init__'))
-    chk.ob(rid, NSRULE, 'CSSNamespaceRule.__init__', 'the constructor sets URI and prefix through their setters', 'self.namespaceURI = namespaceURI' in init and 'self.prefix = prefix' in init, '')
+    chk.ob(rid, NSRULE, 'CSSNamespaceRule.__init__', 'the constructor sets URI and prefix through their setters', 'self.namespaceURI = namespaceURI' in init and 'self.prefix = prefix' in init, '', shape=True)
